@@ -4,7 +4,7 @@ import json, sys, os, subprocess, tempfile
 V = os.path.dirname(os.path.dirname(os.path.abspath(__file__)))
 rec = json.load(open(sys.argv[1]))
 d = tempfile.mkdtemp(prefix="rxreplay-", dir=os.path.join(V, "cache"))
-json.dump({"cases": [dict(prog=rec["prog"], off=rec["off"], cfg=rec["cfg"], forms=[rec["form"]], cmp="global")]}, open(d + "/cases.json", "w"))
+json.dump({"cases": [dict(prog=rec["prog"], off=rec["off"], cfg=rec["cfg"], forms=rec["form"], cmp="global")]}, open(d + "/cases.json", "w"))
 exp = rec.get("expected") or [s["o"] for s in rec["steps"]]
 steps = [dict(s=s["s"], o=exp[i] if i < len(exp) else s["o"]) for i, s in enumerate(rec["steps"])]
 open(d + "/in.ndjson", "w").write(json.dumps(dict(c=1, bad=[], steps=steps)) + "\n")
